@@ -16,7 +16,8 @@ RULE = ("histories of 25..55 operations by 3..5 raw clients (+1 passive observer
         "allowed only as requested replies, no *_requested_reply=\"false\" rule), reply_timeout in {300 ms, never}, "
         "max_replies_per_connection in {1,2,3,default}: method calls (fresh serial, NO_REPLY_EXPECTED, to a name / "
         "unique name, to itself, to a connection without a listed name, serial of an outstanding / finished call reused "
-        "for the same / another callee, beyond the limit), replies as METHOD_RETURN or ERROR (genuine, duplicate, wrong "
+        "for the same / another callee, beyond the limit, and calls that pass the send rules but are denied by the addressee's receive "
+        "rules - no slot may be left behind), replies as METHOD_RETURN or ERROR (genuine, duplicate, wrong "
         "serial, from a third party, to a third party, to a NO_REPLY call, to a refused call, after the caller saw NoReply, "
         "racing the timeout, to a departed caller), callee / caller disconnects, waiting for timeouts. After EVERY "
         "operation every client does a driver round-trip and everything it received is attributed (by a token in the "
@@ -48,6 +49,8 @@ def policy_xml():
            '    <allow receive_type="method_return"/>',  # dito for receive_requested_reply
            '    <allow receive_type="error"/>',
            '    <allow receive_type="signal"/>',
+           # calls of this interface pass every SEND rule and are refused by the addressee's RECEIVE rules
+           '    <deny receive_type="method_call" receive_interface="com.example.NoRecv"/>',
            '    <allow send_destination="org.freedesktop.DBus" send_interface="org.freedesktop.DBus"/>']
     for n in TEST_NAMES:
         out.append('    <allow send_type="method_call" send_destination="%s"/>' % n.decode())
@@ -321,7 +324,8 @@ class History(object):
         dest = callee.tname if (callee is not None and by_name and callee.tname) else callee_u
         tok = self.token("call")
         t_pre = time.monotonic()
-        used, data = caller.build(1, path=b"/t", iface=b"com.example.I", member=b"M", dest=dest, sig=b"s", body=[tok],
+        used, data = caller.build(1, path=b"/t", iface=b"com.example.NoRecv" if klass == "recv-denied" else b"com.example.I", member=b"M",
+                                  dest=dest, sig=b"s", body=[tok],
                                   flags=1 if no_reply else 0, serial=serial)
         caller.send_msg(data, used)
         self.step("call[%s] %s -> %s (dest %s) serial=%d%s" % (klass, self.lab(caller.unique), self.lab(callee_u), self.lab(dest), used,
@@ -363,6 +367,14 @@ class History(object):
                 self.part.inconclusive.append("history %d: call to a connection owning no listed name was %s" % (self.hid, observed))
             else:
                 self.part.count("call:refused-by-policy")
+        elif klass == "recv-denied":
+            # allowed to be sent, refused by the addressee's receive rules: AccessDenied for the caller, nobody gets it, and no
+            # reply slot may be left behind (checked by the replies sent later 'to a refused call' and by the H1 comparison)
+            self.part.sig("call", klass, no_reply, by_name, observed, self.mode())
+            self.part.count("call:recv-denied:" + observed)
+            if observed != pm.REFUSE_DENIED:
+                self.violation("receive-denied-call:%s" % observed, "a method call that the addressee's receive rules deny was %s" % observed)
+            n_at = 0
         else:
             outcomes = self.model.call_outcomes(caller.unique, callee_u, used, no_reply, just)
             self.part.sig("call", klass, no_reply, by_name and bool(callee.tname), caller is callee, tuple(sorted(outcomes)), observed, self.mode())
@@ -719,6 +731,14 @@ class History(object):
                 self.op_call(caller, cal, cal.unique, False, no_reply=rng.random() < 0.3, klass="unlisted-destination")
             elif q < 0.12 and caller.tname:
                 self.op_call(caller, caller, caller.unique, rng.random() < 0.4, no_reply=rng.random() < 0.2, klass="to-itself")
+            elif q < 0.20 and named:
+                cal = rng.choice([c for c in named if c is not caller] or named)
+                self.op_call(caller, cal, cal.unique, rng.random() < 0.4, no_reply=rng.random() < 0.15, klass="recv-denied")
+                # a later reply of the would-be callee is the probe; make it likely while the caller is still there
+                if rng.random() < 0.6 and self.by_unique(cal.unique) is not None and self.by_unique(caller.unique) is not None:
+                    t = self.refused_calls[-1]
+                    if self.model.get(t[0], t[1], t[2]) is None:
+                        self.op_reply(self.by_unique(t[1]), t[0], t[2], "refused-call")
             elif named:
                 cal = rng.choice([c for c in named if c is not caller] or named)
                 nr = rng.random() < 0.15
@@ -831,6 +851,8 @@ def run(tier, seed, replay=None, scale=1.0):
     for k in REQUIRED:
         r.require(k, 3 if scale >= 1 else 1)
     r.require("daemon-stderr-scraped", 1)
+    r.require("call:recv-denied:" + pm.REFUSE_DENIED, int(100 * min(1.0, scale)))
+    r.require("reply:refused-call:refused", int(60 * min(1.0, scale)))
     r.require("dump-comparisons", int(5000 * min(1.0, scale)))
     r.require("dump-slots-compared", int(5000 * min(1.0, scale)))
     r.assumptions = [
